@@ -648,3 +648,11 @@ _C16C = [{'qualname': '_some_str', 'lean_name': 'some_str', 'params': {'value': 
           'tie_theorem': 'C16.src_some_str_eq_model', 'module': 'boltons.tbutils', 'kind': 'function',
           'translator': 'py2lean_c16', 'gen_file': 'tbutils_c16'}]
 _C16.extend(_C16C)
+# the second copy of the display-name computation: format_exception_only (`stype = ...` up to `if not issubclass(...)`);
+# `false_before`: the guard `if etype is None:` in front of the region is false for an `etype : ExcType`.
+_C16D = [{'qualname': 'format_exception_only', 'lean_name': 'format_exception_only_type_str',
+          'region': {'start': 'stype', 'stop_test': 'issubclass', 'result': 'stype', 'false_before': ['etype is None']},
+          'locals': {'smod': 'Option Str'}, 'params': {'etype': 'ExcType'}, 'result': 'Str',
+          'tie_theorem': 'C16.src_feo_type_str_eq_model', 'module': 'boltons.tbutils', 'kind': 'function',
+          'translator': 'py2lean_c16', 'gen_file': 'tbutils_c16'}]
+_C16.extend(_C16D)
